@@ -84,7 +84,8 @@ func ExtraCases() []Case {
 			second string
 		}{{"alias-and-target-response-in-one-operation", "NotFound"}, {"same-response-twice-in-one-operation", "BadRequest"}, {"alias-of-alias-and-target-response-in-one-operation", "Gone"}} {
 			d := NewDoc("x")
-			d.Comp("responses", "BadRequest", Resp("bad", Obj(nil, M{"a": Prim("string", "")})))
+			// (body-less: an alias of a response with a JSON body is a recorded finding of its own)
+			d.Comp("responses", "BadRequest", M{"description": "bad", "headers": M{"X-Reason": M{"schema": Prim("string", "")}}})
 			d.Comp("responses", "NotFound", Ref("responses", "BadRequest"))
 			d.Comp("responses", "Gone", Ref("responses", "NotFound"))
 			d.Op("/t", "get", M{"responses": M{"200": M{"description": "ok"}, "400": Ref("responses", "BadRequest"), "404": Ref("responses", v.second)}})
